@@ -1108,7 +1108,7 @@ impl Runner {
             let mut defined = true;
             for (k, v) in &e {
                 if lo_ok(&lo, k) && hi_ok(&hi, k) {
-                    match auts::lang(&spec, k) {
+                    match auts::lang_stream(&spec, k) {
                         Some(true) => want.push((k.clone(), *v)),
                         Some(false) => {}
                         None => defined = false,
